@@ -239,6 +239,22 @@ func evalC10(gc giCase, iv *invC10) *Failure {
 	return nil
 }
 
+func observeC10(g graph.Graph) string {
+	n := g.N()
+	var dist []int
+	for i := 0; i < n; i++ {
+		for j := 0; j < n; j++ {
+			dist = append(dist, graph.Distance(g, i, j))
+		}
+	}
+	blocks, arts := graph.BiconnectedComponents(g)
+	var comp1 [][]int
+	for v := 0; v < n; v++ {
+		comp1 = append(comp1, graph.ConnectedComponent(g, v))
+	}
+	return fmt.Sprint(dist, graph.Eccentricity(g), graph.Diameter(g), graph.Radius(g), graph.Girth(g), listsKey(graph.ConnectedComponents(g)), comp1, listsKey(blocks), sortedCopy(arts), graph.NumberOfInducedPaths(g, -1), graph.NumberOfInducedCycles(g, -1))
+}
+
 func runC10(c *Ctx) {
 	c.Level = "exploration"
 	c.Rule = "every labelled graph with n<=5 in four representations, n=6 dense+sparse (n=7 dense in thorough): Distance for every vertex pair, Eccentricity/Diameter/Radius against Floyd-Warshall, Girth, ConnectedComponent(v) for every v, ConnectedComponents, BiconnectedComponents (blocks = maximal connected vertex sets without a cut vertex, articulation vertices by deletion), NumberOfCycles by DFS enumeration, NumberOfInducedPaths/Cycles by subset tests for every maxLength in [-1,n+1]; isomorphism-invariant counts computed once per class (orbit sweep) and required of every labelled member; non-trivial = graph with at least one edge"
@@ -285,11 +301,27 @@ func runC10(c *Ctx) {
 		}
 		c.Count(fmt.Sprintf("labelled_graphs_n%d_x_reps%d", n, len(reprs)), total)
 	}
+	var vcs []viewCase
+	for n := 3; n <= 5; n++ {
+		vcs = append(vcs, viewHistoryCases(n, "c10-values")...)
+	}
+	c.parFor(int64(len(vcs)), 16, func(lo, hi int64) {
+		for _, vc := range vcs[lo:hi] {
+			vc := vc
+			c.Check(func() *Failure { return evalViewHistory(vc, observeC10) })
+		}
+	})
+	c.SetCount("view_histories", int64(len(vcs)))
 	c.Sample("graph", giCase{N: 6, Mask: 0x1b47, G6: g6(6, 0x1b47), Rep: "induced-view"})
 	c.Assume("graphs with n >= 8 are not covered")
 }
 
 func replayC10(kind string, raw json.RawMessage) *Failure {
+	if kind == "view-history" {
+		var vc viewCase
+		json.Unmarshal(raw, &vc)
+		return evalViewHistory(vc, observeC10)
+	}
 	var gc giCase
 	if err := json.Unmarshal(raw, &gc); err != nil {
 		return &Failure{Class: "replay/bad-file", What: err.Error()}
